@@ -300,6 +300,10 @@ def _cls_c19(t, impl):
         return "%s:%s:%s" % (op, t[1], _kind_of(impl)), True
     if op == "sum":
         return "sum:%s:len=%d" % (t[1], len(t) - 2), len(t) > 3
+    if op == "neut":
+        return "neut:%s:%s" % (t[1], _kind_of(impl)), True
+    if op in ("iszero", "isone"):
+        return "%s=%s" % (op, impl), True
     return None, False
 
 
@@ -327,7 +331,8 @@ PROPS["C18"] = Prop(sort_names=True,
 PROPS["C19"] = Prop(sort_names=True,
     rule="random Dual/Dual2 pairs over all layouts of a 3-name pool with all sign combinations: 6 comparisons, float "
          "comparisons on both sides, abs, signum, % in the three operand forms, zero/one neutrality, sums of length 0..8 "
-         "(typed and through Number); once per run all 7 x 7 pairs of {0, -0, NaN, +-inf, +-1.5} for both types through "
+         "(typed and through Number), the LIBRARY'S OWN zero and one elements (Zero::zero, One::one, is_zero, is_one) "
+         "on either side of + and *, typed and through Number; once per run all 7 x 7 pairs of {0, -0, NaN, +-inf, +-1.5} for both types through "
          "every comparison form (IEEE order is not total there). non-trivial = every op line",
     classify=_cls_c19, mode="vexact", exhaustive=lambda tier: False, trusted=_dual_trusted, assumptions=_dual_assume)
 
